@@ -174,10 +174,11 @@ def gen_T18():
     inner = [n for n in mk.body if isinstance(n, ast.FunctionDef) and n.name == 'f']
     need(len(inner) == 1, 'Scheduler._makeCommandFunction: no inner f()')
     fb = [ast.unparse(x) for x in inner[0].body]
-    need(fb[0] == 'irc = world.getIrc(network) or world.ircs[0]'
-         and fb[1] == 'tokens = callbacks.tokenize(command, channel=msg.channel, network=irc.network)'
-         and fb[2] == 'if remove:\n    del self.events[str(f.eventId)]' and fb[-1] == 'self.Proxy(irc, msg, tokens)',
-         'Scheduler._makeCommandFunction: tokenize / delete-then-run changed: %r' % fb)
+    dele, getirc = 'if remove:\n    del self.events[str(f.eventId)]', 'irc = world.getIrc(network) or world.ircs[0]'
+    tok = 'tokens = callbacks.tokenize(command, channel=msg.channel, network=irc.network)'
+    need(fb[:3] in ([getirc, tok, dele], [dele, getirc, tok]) and fb[-1] == 'self.Proxy(irc, msg, tokens)',
+         'Scheduler._makeCommandFunction: tokenize / delete / run changed: %r' % fb)
+    delete_first = fb[0] == dele
     if len(fb) == 4:
         cmd_checks = False
     else:
@@ -239,4 +240,5 @@ def gen_T18():
     out += 'Definition DIE_UNSCHEDULES : bool := %s.\n' % cbool(die_unschedules)
     out += 'Definition RESTORE_CHECKS_FREE : bool := %s.\n' % cbool(checks_free)
     out += 'Definition FIRE_CHECKS_IGNORED : bool := %s.\n' % cbool(cmd_checks)
+    out += 'Definition DELETE_BEFORE_TOKENIZE : bool := %s.\n' % cbool(delete_first)
     return 'src/schedule.py + plugins/Scheduler/plugin.py', out
